@@ -407,14 +407,18 @@ class ConVecBuffer : public ConVecBufferBase<T, kMinBufferSize, kMaxVectorSize, 
   template <typename CacheUpdate>
   void allocAsNecessaryImpl(const BucketInfo& binfo, CacheUpdate&& cacheUpdate) {
     if (DISPENSO_EXPECT(binfo.bucketIndex == allocCheckIndex(binfo.bucketCapacity), 0)) {
+      DISPENSO_VERIF_POINT("cvec.alloc1.next.load", &this->buffers_[binfo.bucket + 1]);
       if (!this->buffers_[binfo.bucket + 1].load(std::memory_order_acquire)) {
         T* newBuf = cv::alloc<T>(binfo.bucketCapacity << 1);
         cacheUpdate(binfo.bucket + 1, newBuf);
+        DISPENSO_VERIF_POINT("cvec.alloc1.next.store", &this->buffers_[binfo.bucket + 1]);
         this->buffers_[binfo.bucket + 1].store(newBuf, std::memory_order_release);
         shouldDealloc_[binfo.bucket + 1] = true;
       }
     }
+    DISPENSO_VERIF_POINT("cvec.alloc1.wait.load", &this->buffers_[binfo.bucket]);
     while (DISPENSO_EXPECT(!this->buffers_[binfo.bucket].load(std::memory_order_acquire), 0)) {
+      DISPENSO_VERIF_POINT("cvec.alloc1.wait.load", &this->buffers_[binfo.bucket]);
     }
   }
 
@@ -425,8 +429,10 @@ class ConVecBuffer : public ConVecBufferBase<T, kMinBufferSize, kMaxVectorSize, 
       size_t cap,
       bool firstAccounted,
       CacheUpdate&& cacheUpdate) {
+    DISPENSO_VERIF_POINT("cvec.allocN.assign.load", &this->buffers_[bucket]);
     if (!this->buffers_[bucket].load(std::memory_order_acquire)) {
       cacheUpdate(bucket, allocBufs);
+      DISPENSO_VERIF_POINT("cvec.allocN.assign.store", &this->buffers_[bucket]);
       this->buffers_[bucket].store(allocBufs, std::memory_order_release);
       allocBufs += cap;
       shouldDealloc_[bucket] = !firstAccounted;
@@ -451,6 +457,7 @@ class ConVecBuffer : public ConVecBufferBase<T, kMinBufferSize, kMaxVectorSize, 
       size_t cap = binfo.bucketCapacity << ((bool)binfo.bucket + !allocCurrentBucket);
       size_t bucket = binfo.bucket + 1 + !allocCurrentBucket;
       for (; bucket <= bend.bucket; ++bucket, cap <<= 1) {
+        DISPENSO_VERIF_POINT("cvec.allocN.size.load", &this->buffers_[bucket]);
         if (!this->buffers_[bucket].load(std::memory_order_acquire)) {
           sizeToAlloc += cap;
         }
@@ -462,6 +469,7 @@ class ConVecBuffer : public ConVecBufferBase<T, kMinBufferSize, kMaxVectorSize, 
       const size_t endToCheck = allocCheckIndex(bend.bucketCapacity);
 
       if (DISPENSO_EXPECT(bend.bucketIndex > endToCheck, 0)) {
+        DISPENSO_VERIF_POINT("cvec.allocN.size.load", &this->buffers_[bucket]);
         if (!this->buffers_[bucket].load(std::memory_order_acquire)) {
           sizeToAlloc += cap;
         }
@@ -487,10 +495,12 @@ class ConVecBuffer : public ConVecBufferBase<T, kMinBufferSize, kMaxVectorSize, 
       }
     }
     for (size_t bucket = binfo.bucket; bucket <= bend.bucket; ++bucket) {
+      DISPENSO_VERIF_POINT("cvec.allocN.wait.load", &this->buffers_[bucket]);
       while (DISPENSO_EXPECT(!this->buffers_[bucket].load(std::memory_order_acquire), 0)) {
 #if defined(DISPENSO_HAS_TSAN)
         std::this_thread::sleep_for(std::chrono::microseconds(1));
 #endif // DISPENSO_HAS_TSAN
+        DISPENSO_VERIF_POINT("cvec.allocN.wait.load", &this->buffers_[bucket]);
       }
     }
   }
